@@ -26,6 +26,10 @@ oracles (clause of the statement -> oracle)
                   the best-fitting RDM of the remaining groups only": literal recomputation for every set partition of the
                   RDMs into >= 2 groups (balanced, unbalanced, interleaved; int / unsorted int / string labels; default
                   descriptor for singleton groups); with singleton groups also upper == average similarity of the pooled RDM.
+* C07/upper-grouped  companion of the previous clause for NON-singleton groups (the statement defines the upper bound only for
+                  singleton groups; the two bounds are comparable only if they average alike): upper == average over the same
+                  groups of the mean similarity between the group and the best-fitting RDM of ALL data.  Own obligation
+                  ('.../upper-averages-over-groups') so that it can be judged separately from the stated clauses.
 * C07/ordering    "for cosine- and correlation-type measures, plain or whitened, with singleton groups it never exceeds the
                   upper bound": lower <= upper (both finite) for cosine, corr, cosine_cov, corr_cov.
 * C07/invariance  "invariant to rescaling individual data RDMs (cosine) or shifting and rescaling them (correlation)": both
@@ -53,8 +57,8 @@ input_class = '<method>,<kind of data>[,nan][,<grouping kind>]' (see `_ic`).
 
 NOT covered by this tier: all-real-values optimality (Lean lemma `pooled_optimal`, engine B pooling contract); candidates
 outside the enumerated / sampled sets for > 6 entries; lower <= upper for rho-a (not claimed by the property) and for
-non-singleton groups; the upper bound for non-singleton groups (the statement defines it for singleton groups only);
-a single group (no remaining groups: undefined); entries missing from only SOME RDMs; sigma_k-weighted whitening;
+non-singleton groups; optimality of the upper bound for non-singleton groups (the statement defines it for singleton
+groups only); a single group (no remaining groups: undefined); entries missing from only SOME RDMs; sigma_k-weighted whitening;
 degenerate RDMs (constant, all zero) for cosine / corr; the fold generators themselves (C05) and the non-interference of
 fitting (C05); bootstrap plumbing of the ceilings (C04); util/pooling.py's pool_rdm (used by the fitters, C08).
 """
@@ -73,6 +77,7 @@ ALL_METHODS = ('cosine', 'corr', 'rho-a', 'cosine_cov', 'corr_cov')
 
 OB_OPT = 'C07/boot_noise_ceiling/oracle/upper-is-best-achievable'
 OB_LOO = 'C07/boot_noise_ceiling/oracle/lower-is-leave-one-group-out'
+OB_UPG = 'C07/boot_noise_ceiling/oracle/upper-averages-over-groups'
 OB_ORD = 'C07/boot_noise_ceiling/oracle/lower-le-upper'
 OB_INV = 'C07/noise_ceiling/oracle/scale-shift-invariance'
 OB_MISS = 'C07/noise_ceiling/oracle/common-missing-entries-ignored'
@@ -162,9 +167,15 @@ def _pool(method, vecs):
 def _score_range(method, pred, tests, nc):
     """(lo, canonical, hi) of the mean similarity between pred and the rows of tests.  lo < hi only for rho-a when pred has
     tied entries: every ordering inside a tie block of pred is an equally good prediction for its training data."""
-    can = float(np.mean([_sim(method, pred, t, nc) for t in tests]))
     if method != 'rho-a':
+        x = pred[~np.isnan(pred)]
+        if method == 'corr':
+            x = x - np.mean(x)
+        if np.sqrt(np.mean(x * x)) < 1e-7:   # the training RDMs cancel: EVERY RDM fits them equally well (average similarity 0),
+            return -1.0, 0.0, 1.0            # the statement leaves the prediction, hence this term, undetermined
+        can = float(np.mean([_sim(method, pred, t, nc) for t in tests]))
         return can, can, can
+    can = float(np.mean([_sim(method, pred, t, nc) for t in tests]))
     ok = ~np.isnan(pred)
     p = pred[ok]
     n = len(p)
@@ -466,6 +477,21 @@ def orc_loo(case):
     return None
 
 
+@oracle('C07/upper-grouped')
+def orc_upper_grouped(case):
+    """companion of the lower-bound clause for non-singleton groups: the upper bound averages over the same left-out groups,
+    with the best-fitting RDM of ALL data as the prediction"""
+    method = case['method']
+    vecs = _data(case)
+    labels = list(case['labels'])
+    _, upper = _boot(vecs, method, labels)
+    _, up_rng = _spec_bounds(method, vecs, labels, case['n_cond'])
+    if not _in_range(upper, up_rng):
+        return (f'upper bound {upper:.12g} != average over the {len(set(labels))} groups of the mean similarity between the group '
+                f'and the best-fitting RDM of all data {_fmt(up_rng)} (labels {labels})')
+    return None
+
+
 @oracle('C07/ordering')
 def orc_ordering(case):
     method = case['method']
@@ -540,10 +566,24 @@ def orc_cv(case):
     return None
 
 
+def _undetermined(case):
+    """True if some prediction entering the bounds is undetermined (training RDMs cancel exactly / rho-a tie blocks): the bounds
+    are then not a function of the data alone and an invariance statement about them is empty"""
+    method = {'cosine_cov': 'cosine', 'corr_cov': 'corr'}.get(case['method'], case['method'])
+    vecs = _data(case)
+    if case.get('folds'):
+        rngs = _spec_cv(method, vecs, case)
+    else:
+        rngs = _spec_bounds(method, vecs, list(case.get('labels') or range(len(vecs))), case['n_cond'])
+    return any(r[2] - r[0] > TOL for r in rngs)
+
+
 @oracle('C07/invariance')
 def orc_invariance(case):
     method = case['method']
     vecs = _data(case)
+    if _undetermined(case):
+        return None
     n = len(vecs)
     rs = np.random.RandomState(case['seed'] + 104729)
     a = 10.0 ** rs.uniform(-case.get('decades', 2), case.get('decades', 2), size=(n, 1))
@@ -690,18 +730,22 @@ def tier_c(run, thorough):
     sizes = (2, 3) if thorough else (2,)
     bd = Bounded(run, 'C07/rho-a-exhaustive/3-entries', OB_OPT,
                  'n_cond=3 (3 entries): EVERY ordered stack of %s data RDMs up to order-equivalence (13 weak orders each, ties and '
-                 'constant RDMs included%s) x ALL 13 candidate weak orders; method rho-a; singleton groups'
-                 % (' or '.join(map(str, sizes)), '' if thorough else '; quick adds 300 of the 2197 stacks of 3'),
-                 exhaustive=True, function='boot_noise_ceiling')
+                 'constant RDMs included) x ALL 13 candidate weak orders; method rho-a; singleton groups'
+                 % ' or '.join(map(str, sizes)), exhaustive=True, function='boot_noise_ceiling')
     for n in sizes:
         for stack in itertools.product(lev3, repeat=n):
             bd.check(orc_rho_exhaustive, dict(n_cond=3, levels=[list(s) for s in stack]), 'rho-a,levels', function='pool_rdm')
-    if not thorough:
-        for k, stack in enumerate(itertools.product(lev3, repeat=3)):
-            if k % 7 == 0:
-                bd.check(orc_rho_exhaustive, dict(n_cond=3, levels=[list(s) for s in stack]), 'rho-a,levels', function='pool_rdm')
     bd.done()
     bds.append(bd)
+    if not thorough:
+        bd = Bounded(run, 'C07/rho-a-exhaustive/3-entries-sampled', OB_OPT,
+                     'n_cond=3: every 5th of the 2197 ordered stacks of 3 data weak orders x ALL 13 candidate weak orders (thorough: all)',
+                     function='boot_noise_ceiling')
+        for k, stack in enumerate(itertools.product(lev3, repeat=3)):
+            if k % 5 == 0:
+                bd.check(orc_rho_exhaustive, dict(n_cond=3, levels=[list(s) for s in stack]), 'rho-a,levels', function='pool_rdm')
+        bd.done()
+        bds.append(bd)
 
     # ---- rho-a: ALL candidates on 4..6 entries, seeded (tied) data ----------------------------------------------------
     nan_sets = [[], [2], [0, 5], [4], [1, 3]] if thorough else [[], [2], [0, 5]]
@@ -796,6 +840,25 @@ def tier_c(run, thorough):
     bd.done()
     bds.append(bd)
 
+    # ---- upper bound with non-singleton groups: same averaging over groups -------------------------------------------
+    bd = Bounded(run, 'C07/upper-grouped', OB_UPG,
+                 'EVERY set partition of n_rdm = 3..%d RDMs into >= 2 groups with at least one group of >= 2 RDMs x methods cosine, '
+                 'corr, rho-a x data kinds pos / int, label styles rotating, n_cond 4..5; seeded values' % max_n,
+                 function='boot_noise_ceiling')
+    for n in range(3, max_n + 1):
+        for pk, rgs in enumerate(_partitions(n)):
+            if max(rgs) == 0 or max(rgs) == n - 1:
+                continue
+            style, labels = _label_styles(rgs)[pk % 3]
+            for mk, method in enumerate(OPT_METHODS):
+                kind = 'int' if (pk + mk) % 2 else 'pos'
+                case = dict(seed=500 * n + pk, n_rdm=n, n_cond=4 + pk % 2, kind=kind, method=method, labels=labels)
+                if kind == 'int':
+                    case['nlev'] = 4
+                bd.check(orc_upper_grouped, case, _ic(method, case, labels), function='boot_noise_ceiling')
+    bd.done()
+    bds.append(bd)
+
     # ---- lower <= upper -------------------------------------------------------------------------------------------------
     shapes = [(2, 3), (2, 4), (3, 4), (3, 5), (4, 5), (5, 6), (8, 7)] + ([(2, 6), (3, 3), (4, 4), (6, 5), (10, 6), (16, 5)] if thorough else [])
     seeds = range(10 if thorough else 2)
@@ -842,11 +905,14 @@ def tier_c(run, thorough):
                         case['nan_conds'] = [1]
                     if gk == 1:
                         case['only'] = seed % 5
-                    bd.check(orc_invariance, case, f'{method},{cls},boot', function='boot_noise_ceiling')
-                case = dict(seed=seed * 10 + kk, n_rdm=4, n_cond=6, kind=kind, method=method, folds=_grid_folds(4, 6, 2, 2))
-                bd.check(orc_invariance, case, f'{method},{cls},cv', function='cv_noise_ceiling')
-                case = dict(seed=seed * 10 + kk, n_rdm=4, n_cond=6, kind=kind, method=method, folds=_random_folds(seed, 4, 6, 3))
-                bd.check(orc_invariance, case, f'{method},{cls},cv', function='cv_noise_ceiling')
+                    if not _undetermined(case):
+                        bd.check(orc_invariance, case, f'{method},{cls},boot', function='boot_noise_ceiling')
+                for folds in (_grid_folds(4, 6, 2, 2), _random_folds(seed, 4, 6, 3)):
+                    case = dict(seed=seed * 10 + kk, n_rdm=4, n_cond=6, kind=kind, method=method, folds=folds)
+                    if kind == 'int':
+                        case['nlev'] = 7
+                    if not _undetermined(case):
+                        bd.check(orc_invariance, case, f'{method},{cls},cv', function='cv_noise_ceiling')
             case = dict(seed=seed, n_rdm=5, n_cond=5, kind='pos', method=method, decades=6)
             bd.check(orc_invariance, case, f'{method},{cls},boot', function='boot_noise_ceiling')
     bd.done()
